@@ -9,3 +9,11 @@ Fixpoint bytes_of_string (s : string) : list N :=
   match s with EmptyString => [] | String a s' => N_of_ascii a :: bytes_of_string s' end.
 Lemma tie_hnames : map bytes_of_string Params_gen.hfield_names = hnames.
 Proof. vm_compute. reflexivity. Qed.
+(* needspace() and atomok() of token822.c as generated from today's source = the model's (Addr/Tok.v), on their whole domains *)
+From NQ Require Base.MiniC gen.CGen Tie.GenCommon Tie.Gen_small.
+Lemma tie_generated_needspace : forall a b : nat, (a < 12)%nat -> (b < 12)%nat ->
+  GenCommon.retval (CGen.C_needspace.run 1 (Z.of_nat a) (Z.of_nat b)) = Some (MiniC.b2z (Tok.needspace (Gen_small.class_of_type a) (Gen_small.class_of_type b))).
+Proof. exact Gen_small.gen_needspace_eq. Qed.
+Lemma tie_generated_atomok : forall c : N, (c < 256)%N ->
+  GenCommon.retval (CGen.C_atomok.run 1 (MiniC.wraps 8 (Z.of_N c))) = Some (MiniC.b2z (Tok.atomok c)).
+Proof. exact Gen_small.gen_atomok_eq. Qed.
